@@ -14,14 +14,17 @@ theorem Slot.ptrs_eq {s s' : Slot} (h : s'.ptrs = s.ptrs) :
   simp only [Prod.mk.injEq] at h
   exact h
 
+/-- What the loop does with the result of the climb. -/
+def climbK (K : Arena → Option NodeId → Step Unit) (b2 : Arena) (r' : Option NodeId) : Step Unit :=
+  match r' with
+  | none => K b2 none
+  | some n => rd b2 n fun s => K b2 s.next
+
 /-- The climb `ancestors().skip(1).find(has next sibling).and_then(next sibling)`. -/
 theorem Rep.climb {a b : Arena} {g : Shape} {fl F : List Nat} (r : Rep a g) (m : FreeMany a fl F b)
     (K : Arena → Option NodeId → Step Unit) :
     ∀ (q : Nat) (o : Option Nat), NextAfter g q o → Live a q → ∀ l, UpChain g.par q l → ∀ fuel, l.length < fuel →
-      ((findAncestorWithNext fuel b (some (a.idAt q))).bind fun b2 r' =>
-        match r' with
-        | none => K b2 none
-        | some n => rd b2 n fun s => K b2 s.next) = K b (o.map a.idAt) := by
+      (findAncestorWithNext fuel b (some (a.idAt q))).bind (climbK K) = K b (o.map a.idAt) := by
   intro q o h
   induction h with
   | @sib c q' n L R hp hk =>
@@ -37,7 +40,7 @@ theorem Rep.climb {a b : Arena} {g : Shape} {fl F : List Nat} (r : Rep a g) (m :
     unfold findAncestorWithNext
     simp only []
     rw [rd_some _ _ _ _ hsb]
-    simp only [hnext, Option.isSome_some, if_true, Step.bind_done]
+    simp only [hnext, Option.isSome_some, if_true, Step.bind_done, climbK]
     rw [rd_some _ _ _ _ hsb, hnext]
     rfl
   | @up c q' L o hp hk _ ih =>
